@@ -69,7 +69,8 @@ impl Op {
         match self {
             Op::ApiCreate { .. } => "api_create",
             Op::Stmt(w) => match w {
-                PW::Insert { .. } => "insert",
+                PW::Insert { .. } | PW::InsertStyled { .. } => "insert",
+                PW::CreateEdgeStyled { .. } => "create_edge",
                 PW::SetV { .. } => "set",
                 PW::RemoveV { .. } => "remove_prop",
                 PW::AddLabel { .. } => "add_label",
@@ -87,11 +88,11 @@ impl Op {
         match self {
             Op::ApiCreate { .. } => true,
             Op::Stmt(w) => match w {
-                PW::Insert { .. } | PW::SparqlInsert { .. } | PW::SparqlDelete { .. } | PW::Merge { .. } => true,
+                PW::Insert { .. } | PW::InsertStyled { .. } | PW::SparqlInsert { .. } | PW::SparqlDelete { .. } | PW::Merge { .. } => true,
                 PW::SetV { uid, .. } | PW::RemoveV { uid } | PW::AddLabel { uid, .. } | PW::RemoveLabel { uid, .. } | PW::DeleteIsolated { uid } | PW::DetachDelete { uid } => {
                     has_p(view, *uid)
                 }
-                PW::CreateEdge { a, b, .. } => has_p(view, *a) && has_p(view, *b),
+                PW::CreateEdge { a, b, .. } | PW::CreateEdgeStyled { a, b, .. } => has_p(view, *a) && has_p(view, *b),
             },
         }
     }
@@ -310,7 +311,7 @@ pub fn overlap_history(rep: &mut crate::report::Report, seed: u64, case: u64, mo
                     dev.cur.nodes.remove(&u);
                     dev.nvis.remove(&u);
                 }
-                if stx.ops.iter().any(|o| !matches!(o, Op::ApiCreate { .. } | Op::Stmt(PW::Insert { .. } | PW::CreateEdge { .. } | PW::SparqlInsert { .. } | PW::SparqlDelete { .. }))) {
+                if stx.ops.iter().any(|o| !matches!(o, Op::ApiCreate { .. } | Op::Stmt(PW::Insert { .. } | PW::InsertStyled { .. } | PW::CreateEdge { .. } | PW::CreateEdgeStyled { .. } | PW::SparqlInsert { .. } | PW::SparqlDelete { .. }))) {
                     residue = true;
                 }
             }
@@ -342,7 +343,7 @@ pub fn overlap_history(rep: &mut crate::report::Report, seed: u64, case: u64, mo
                 }
                 0 | 1 => {
                     next_uid += 1;
-                    Op::Stmt(PW::Insert { uid: next_uid, v: r.range(0, 40) })
+                    if r.chance(0.3) { Op::Stmt(PW::InsertStyled { uid: next_uid, v: r.range(0, 40), style: r.below(2) as u8 }) } else { Op::Stmt(PW::Insert { uid: next_uid, v: r.range(0, 40) }) }
                 }
                 2 | 3 => {
                     next_uid += 1;
@@ -354,7 +355,11 @@ pub fn overlap_history(rep: &mut crate::report::Report, seed: u64, case: u64, mo
                 8 => Op::Stmt(PW::RemoveLabel { uid: pick_uid(&mut r), l: *r.pick(&["Q", "X"]) }),
                 9 | 10 | 11 => {
                     next_uid += 1;
-                    Op::Stmt(PW::CreateEdge { euid: next_uid, a: pick_uid(&mut r), b: pick_uid(&mut r) })
+                    if r.chance(0.4) {
+                        Op::Stmt(PW::CreateEdgeStyled { euid: next_uid, a: pick_uid(&mut r), b: pick_uid(&mut r), style: [0u8, 2][r.below(2)] })
+                    } else {
+                        Op::Stmt(PW::CreateEdge { euid: next_uid, a: pick_uid(&mut r), b: pick_uid(&mut r) })
+                    }
                 }
                 _ => {
                     if r.chance(0.6) { Op::Stmt(PW::SparqlInsert { s: r.below(4) as u64 }) } else { Op::Stmt(PW::SparqlDelete { s: r.below(4) as u64 }) }
